@@ -981,6 +981,31 @@ MUTANTS = [
     dict(id="C01.n-tfc-diff-only-for-firewall-callees", prop="C01", file=CG + "repair.rs",
          old="            if !kind.is_firewall() {\n                let tfc_fingerprint_diff", new="            if kind.is_firewall() {\n                let tfc_fingerprint_diff",
          expect="C01.n/check_callee/tfc-diff-for-non-firewall-callees"),
+    dict(id="C09.g-batch-keeps-first-op-on-an-element", prop="C09", file=ST + "write_manager/write_behind.rs",
+         old="                occupied_entry.get_mut().insert(element, op);\n                false",
+         new="                occupied_entry.get_mut().entry(element).or_insert(op);\n                false",
+         expect="C09.g/batch/coalescing-keeps-the-latest-operation"),
+    dict(id="C09.g-key-of-set-after-commit-skipped", prop="C09", file=ST + "write_manager/write_behind.rs",
+         old="        self.wide_column_writes.after_commit(epoch);\n        self.key_of_set_writes.after_commit(epoch);",
+         new="        self.wide_column_writes.after_commit(epoch);",
+         expect="C09.g/batch/every-write-family-serialised-and-notified"),
+    dict(id="C16.d-staging-unpinned-on-every-flush", prop="C16", file=ST + "key_of_set_map/cache.rs",
+         old="                if unpinned {\n                    self.staging.unpin(key);\n                }",
+         new="                let _ = unpinned;\n                self.staging.unpin(key);",
+         expect="C16.d/unpin-only-at-zero"),
+    dict(id="C09.g-snapshot-skips-deferred-messages", prop="C09", file=ST + "key_of_set_map/cache.rs",
+         old="        let mut log = self.log.write();\n\n        // fix any deferred messages\n        Self::fix(&mut log, &self.deferred_messages);\n",
+         new="        let log = self.log.read();\n",
+         expect="C09.g/staging/snapshot-applies-deferred-messages-first"),
+    dict(id="C09.g-fetch-entry-ignores-staged-removals", prop="C09", file=ST + "key_of_set_map/cache.rs",
+         old="        for element in &snapshot.removed {\n            new_set.remove_element(element);\n        }\n", new="",
+         expect="C09.g/fetch_entry/overlays-added-and-removed"),
+    dict(id="C09.g-apply-op-pins-only-new-staging-entries", prop="C09", file=ST + "key_of_set_map/cache.rs",
+         old="                    if updated {\n                        x.dirty.fetch_add(1, Ordering::SeqCst);\n                    }\n", new="",
+         expect="C09.g/apply_op/pin-counter-raised-under-updated"),
+    dict(id="C09.e-staging-flush-excludes-the-committed-epoch", prop="C09", file=ST + "key_of_set_map/cache.rs",
+         old="                    if peek.epoch <= epoch {", new="                    if peek.epoch < epoch {",
+         expect="C09.e/key-of-set/epochs"),
     # ------------------------------------------------------------------ C09.f (D5)
     dict(id="C09.f-D5-fold-heap-in-arbitrary-order", prop="C09", file=ST + "key_of_set_map/cache.rs",
          old="""        let mut ordered = log.iter().collect::<Vec<_>>();
